@@ -137,10 +137,10 @@ Proof.
 Qed.
 
 (** a message that fits a Single Frame: no point *)
-Lemma scan_sf m f st : m_ok m -> m_seg c m = [f] -> is_single c (m_n m) = true ->
+Lemma scan_sf m f st : m_ok m -> m_seg c m = [f] ->
   scan_frame k bs st (f_data f) = {| sc_k := 0; sc_rem := 0; sc_pts := sc_pts st |}.
 Proof.
-  intros Hm Hf Hs. pose proof (seg_wf c Hok (m_t m) (m_p m) Hm) as Hwf. fold (m_seg c m) in Hwf. rewrite Hf in Hwf. cbn [map] in Hwf.
+  intros Hm Hf. pose proof (seg_wf c Hok (m_t m) (m_p m) Hm) as Hwf. fold (m_seg c m) in Hwf. rewrite Hf in Hwf. cbn [map] in Hwf.
   change (zlen (Address.tx_prefix (c_txa c))) with k in Hwf.
   unfold scan_frame.
   inversion Hwf as [pre pad Hpre Hn Hlen Ef | pre pad Hpre Hn Hlen Ef | T pre first rest cfs HT Hpre Hp Hne Hn Hlen Hcfs Ef].
